@@ -154,7 +154,7 @@ type scenario struct {
 	MaxCrashes int    `json:"max_crashes"`
 	Torn       bool   `json:"torn"`
 	PerThread  bool   `json:"per_thread_instance"` // one FileCache per thread (separate processes share only the directory)
-	Faultable  []int  `json:"faultable,omitempty"`  // threads whose create/write/close/fsync/rename steps may be answered with an error
+	Faultable  []int  `json:"faultable,omitempty"` // threads whose create/write/close/fsync/rename steps may be answered with an error
 	MaxFaults  int    `json:"max_faults,omitempty"`
 }
 
@@ -163,7 +163,12 @@ func set(u int, b string) op { return op{"set", u, b} }
 // setc is a Set whose context is already cancelled: it may refuse (then it is like a failed Set), but if it reports
 // success the bundle must have been stored - the freshness clause does not depend on the context.
 func setc(u int, b string) op { return op{"setc", u, b} }
-func get(u int) op           { return op{"get", u, ""} }
+
+// setx is a Set whose context is cancelled WHILE the call is in progress (free-running pass: by another goroutine
+// after a round-dependent delay of 0-300 us; under the cooperative scheduler it is an ordinary Set). Whatever the
+// call reports, its effect must fall inside the call: a store that lands after the call has returned is a late writer.
+func setx(u int, b string) op { return op{"setx", u, b} }
+func get(u int) op            { return op{"get", u, ""} }
 
 func scenarios(thorough bool) []scenario {
 	s := []scenario{
@@ -182,6 +187,7 @@ func scenarios(thorough bool) []scenario {
 	}
 	s = append(s,
 		scenario{Name: "W(cancelled context);R||R from A", Init: []op{set(0, "A")}, Threads: [][]op{{setc(0, "B"), get(0)}, {get(0)}}, MaxCrashes: 0},
+		scenario{Name: "W(context cancelled mid-call);W;R||R from A", Init: []op{set(0, "A")}, Threads: [][]op{{setx(0, "B"), set(0, "C"), get(0)}, {get(0)}}, MaxCrashes: 0},
 	)
 	// environment faults: one step of the writer is answered with an error (ENOSPC half-way through a write, EIO on
 	// close/fsync, EXDEV on rename, ENOSPC on create). A Set that reports the error may or may not have taken effect;
@@ -216,12 +222,13 @@ type histOp struct {
 }
 
 type world struct {
-	bs   *bundleSet
-	root string
-	sc   scenario
-	hist []histOp
-	seq  int64
-	obs  []string // per thread running observation digest input
+	bs    *bundleSet
+	root  string
+	sc    scenario
+	hist  []histOp
+	seq   int64
+	obs   []string // per thread running observation digest input
+	round int      // free-running pass: round number (drives the delay of a mid-call cancellation)
 }
 
 var ctx = context.Background()
@@ -266,14 +273,14 @@ func (w *world) bodies() []func() {
 				w.hist = append(w.hist, histOp{Thread: ti, Kind: o.Kind, URL: o.URL, In: o.Bundle, Call: w.seq, Ret: -1, Crashed: true})
 				// Crashed stays true until the call returns: a crash unwinds through here with a panic
 				switch o.Kind {
-				case "set", "setc":
+				case "set", "setc", "setx":
 					cx := ctx
 					if o.Kind == "setc" {
 						var cancel context.CancelFunc
 						cx, cancel = context.WithCancel(ctx)
 						cancel()
-						w.hist[idx].Kind = "set"
 					}
+					w.hist[idx].Kind = "set"
 					err := c.Set(cx, urls[o.URL], w.bs.bundles[o.Bundle])
 					w.seq++
 					h := &w.hist[idx]
@@ -301,8 +308,8 @@ func (w *world) bodies() []func() {
 // resulting file names are taken as that URL's entry names; the common shape (length and character class) of all
 // learned names is what "looks like an entry" means.
 type naming struct {
-	known map[string]bool     // entry names of the scenario URLs
-	shape func(string) bool   // nil: the learned names have no common shape, the lister invariant is not judged
+	known map[string]bool   // entry names of the scenario URLs
+	shape func(string) bool // nil: the learned names have no common shape, the lister invariant is not judged
 	desc  string
 }
 
@@ -437,7 +444,7 @@ func (w *world) allowed(u int) map[string]bool {
 	}
 	for _, p := range w.sc.Threads {
 		for _, o := range p {
-			if (o.Kind == "set" || o.Kind == "setc") && o.URL == u {
+			if (o.Kind == "set" || o.Kind == "setc" || o.Kind == "setx") && o.URL == u {
 				a[o.Bundle] = true
 			}
 		}
@@ -604,6 +611,7 @@ type jobResult struct {
 	Violations []violation    `json:"violations"`
 	Sample     any            `json:"sample"`
 	ShimActive bool           `json:"shim_active"`
+	Foreign    int64          `json:"foreign_goroutine_steps"` // > 0: the code under test does file-system steps on goroutines of its own
 	ReplayOK   bool           `json:"replay_deterministic"`
 }
 
@@ -635,6 +643,15 @@ func runJob(j job) jobResult {
 	// self-check 1: the shim is active (the code under test reaches the scheduler)
 	x0 := sched.Run(nil, cfg, w.bodies()...)
 	res.ShimActive = len(x0.Points) > len(j.Scenario.Threads)
+	if n := sched.ForeignSteps(); n > 0 {
+		// E1 schedules the threads of the harness, not goroutines the code under test starts by itself: their steps
+		// run free, executions are no longer a function of the choice sequence. Not explored (the parent reports it).
+		time.Sleep(50 * time.Millisecond)
+		res.Foreign = sched.ForeignSteps()
+		res.ReplayOK = true
+		_ = os.RemoveAll(w.root)
+		return res
+	}
 	// self-check 2: replaying the same schedule twice gives identical traces and histories
 	h0, _ := json.Marshal(w.hist)
 	x1 := sched.Run(x0.Choices, cfg, w.bodies()...)
@@ -896,6 +913,10 @@ func main() {
 			r.Infra("replay: %v", err)
 			finish()
 		}
+		if len(v.Trace) == 1 && v.Trace[0] == "large-bundle" {
+			r.Extra["large_bundles"] = runLarge(r, scratch)
+			finish()
+		}
 		if len(v.Trace) == 1 && strings.HasPrefix(v.Trace[0], "free-running") {
 			// a finding of the free-running pass: re-run that pass for the scenario (real schedules, not a recorded one)
 			r.Extra["e5_free_running"] = runFree(r, self, bundleDir, scratch, &v.Scenario)
@@ -963,6 +984,10 @@ func main() {
 		if !res.ShimActive {
 			shim = false
 		}
+		if res.Foreign > 0 {
+			r.Capped(fmt.Sprintf("%s: E1 not explored - the code under test performs file-system steps on goroutines it starts itself (%d such steps in one execution); the cooperative scheduler owns only the harness threads. E4 and the free-running pass (E5) still judge", res.Job, res.Foreign))
+			continue
+		}
 		if !res.ReplayOK {
 			r.Infra("replay of one schedule was not deterministic in %q", res.Job)
 		}
@@ -1014,6 +1039,9 @@ func main() {
 	if e4.Skipped != "" && !shim {
 		r.Infra("neither E1 nor E4 could run: %s", e4.Skipped)
 	}
+	// large bundles (sequential, deterministic)
+	r.Extra["large_bundles"] = runLarge(r, scratch)
+	r.Eval(3)
 	// E5 (supplementary)
 	r.Extra["e5_free_running"] = runFree(r, self, bundleDir, scratch, nil)
 	finish()
